@@ -570,30 +570,24 @@ theorem findOrAdd_refExact (m : Mgr) (ext : Nat → Nat) (i : Int) (v w : Int)
   have hr1 : RefExact (requestReordering m).2 ext := hr.congr hfr.1 hfr.2.1
   have hw1 : WF (requestReordering m).2.tbl := by rw [hfr.1]; exact hw
   have key : ∀ m1 : Mgr, WF m1.tbl → RefExact m1 ext →
-      RefExact ((do if i < 0 then M.throw .value
-                    findOrAddCore i.toNat v w : M Int) m1).2 ext := by
+      RefExact (if i < 0 then ((.error .value, m1) : Except Err Int × Mgr)
+                else findOrAddCore i.toNat v w m1).2 ext := by
     intro m1 hw1 hr1
     by_cases hi : i < 0
-    · simp only [hi, if_true, bind, M.bind', M.throw]; exact hr1
+    · simp only [hi, if_true]; exact hr1
     · simp only [hi, if_false]
       exact findOrAddCore_refExact m1 ext i.toNat v w hw1 hr1
   unfold findOrAdd
-  simp only [bind, M.bind', M.get]
   by_cases hc : m.ctx = true
-  · simp only [hc, if_true, M.bind']
+  · rw [if_pos hc]
     cases hq : requestReordering m with
     | mk r m1 =>
       rw [hq] at hr1 hw1
       cases r with
       | error e => exact hr1
-      | ok x =>
-        have := key m1 hw1 hr1
-        simp only [bind] at this
-        exact this
-  · have := key m hw hr
-    simp only [bind] at this
-    simp only [hc]
-    exact this
+      | ok x => exact key m1 hw1 hr1
+  · rw [if_neg hc]
+    exact key m hw hr
 
 /-- `find_or_add` never removes or changes a node -/
 theorem findOrAddCore_ext (m : Mgr) (i : Nat) (v w : Int)
